@@ -200,6 +200,12 @@ class RegExp:
         else:
             start_pos = self.lastIndex if (self._global or self._sticky) else 0
 
+        if start_pos > len(string):
+            # lastIndex beyond the end: fail (even for a pattern that could
+            # match the empty string there) and start over
+            self.lastIndex = 0
+            return None
+
         if self._sticky:
             result = vm.match(string, start_pos)
             if result:
